@@ -384,4 +384,44 @@ def subLayoutsStep (env : Env K) (ord : Ord) : Nat → List Str → Layout K →
         | (.panic s, ev') => (.panic s, ev ++ ev')
 end
 
+/-! ### the order in which delegated evidence is visited
+
+`verify_sublayouts` visits the steps in layout order and the evidence of a step in key-id order
+(verifying a sub-layout runs its inspections, which see and change the working directory).  In the
+model the table handed to `subLayouts` is in layout order already (stage 4 files the steps in that
+order), so this is the family of iteration orders whose site 2 leaves its list alone and whose
+site 3 sorts by key id; the other sites are hash-map iterations and stay arbitrary. -/
+
+def insertKid {α : Type} (e : Str × α) : List (Str × α) → List (Str × α)
+  | [] => [e]
+  | x :: r => if strLt x.1 e.1 then x :: insertKid e r else e :: x :: r
+
+/-- insertion sort by key id (`Vec::sort_by` on `KeyId`, i.e. `String` order) -/
+def sortKid {α : Type} : List (Str × α) → List (Str × α)
+  | [] => []
+  | e :: r => insertKid e (sortKid r)
+
+/-- the iteration orders of the code: `o` for the hash-map iterations, layout order and key-id order
+    for the two loops of `verify_sublayouts` -/
+def seqOrd (o : Ord) : Ord :=
+  { perm := fun site {_} l => if site = 2 then l else if site = 3 then sortKid l else o.perm site l }
+
+/-! ### helpers shared by the lemmas and by the specification (`Spec/Verify.lean`) -/
+
+/-- the success part of an outcome -/
+def okPart {α : Type} : Out α → Option α
+  | .ok a => some a
+  | _ => none
+
+/-- all-or-nothing map: the images of all elements, or `none` as soon as one has none -/
+def allSome {α β : Type} (f : α → Option β) : List α → Option (List β)
+  | [] => some []
+  | a :: r =>
+    match f a with
+    | none => none
+    | some b =>
+      match allSome f r with
+      | none => none
+      | some bs => some (b :: bs)
+
 end InToto.Verify
